@@ -148,8 +148,11 @@ package support
 
 //@ func support.UpdateTaxaMoveArrays
 //@   requires ref != nil && mux != nil
+//@   requires [the_three_tally_tables_are_separate_storage] arr(moved_species) != arr(sumNbClosestBranches) && (forall k int :: {moved_species_per_branch[k]} 0 <= k && k < len(moved_species_per_branch) ==> arr(moved_species_per_branch[k]) != arr(moved_species))
 //@   assigns elems("float64"), cell(nb_branches_close), ghost(lock_Lock), ghost(lock_Unlock)
 //@   ensures [lock_released] ghost(lock_Lock) - ghost(lock_Unlock) == old(ghost(lock_Lock) - ghost(lock_Unlock))
+//@   store cell(nb_branches_close) [the_shared_counter_of_close_branches_is_advanced_only_under_the_mutex] ghost(lock_Lock) - ghost(lock_Unlock) == old(ghost(lock_Lock) - ghost(lock_Unlock)) + 1
+//@   store elems(moved_species) [the_shared_per_taxon_tallies_are_updated_only_under_the_mutex] ghost(lock_Lock) - ghost(lock_Unlock) == old(ghost(lock_Lock) - ghost(lock_Unlock)) + 1
 //@   loop 1
 //@     complete [all_iterations_no_early_exit]
 //@   loop 2
